@@ -1291,8 +1291,10 @@ void readin (void)
 	if( top_buf.elts)
 		outn((char*) top_buf.elts);
 
-	/* Place a bogus line directive, it will be fixed in the filter. */
-	line_directive_out(NULL, NULL, 0);
+	/* Place a bogus line directive, it will be fixed in the filter.
+	 * It goes to the output, after the %top code, not into the actions.
+	 */
+	line_directive_out(stdout, NULL, 0);
 
 	/* User may want to set the scanner prototype */
 	if (ctrl.yydecl != NULL) {
